@@ -104,6 +104,14 @@ def _nontrivial(case, lo):
 def check_signable(case):
     env = _flooded(case, GE.to_envelope(case))
     expect = RV.signable(env, case["authorized"], case["threshold"], case["gpg"])
+    # history: the caller's key list object (in real use: the pubkeys list inside the trusted metadata) has just been used in a
+    # verification that FAILED although some signatures were good; the list must come out of that untouched
+    auth_obj = list(case["authorized"])
+    with _StrictStdout(case["enc"]):
+        RV.outcome(A.verify_signable, copy.deepcopy(env), auth_obj, case["threshold"] + 3, gpg=case["gpg"])
+    if auth_obj != case["authorized"]:
+        raise Violation("a failed verify_signable call modified the caller's list of authorized keys", bucket="argument mutated by verify_signable")
+    case = dict(case, authorized=auth_obj)
     with _StrictStdout(case["enc"]), _WarningsAsErrors(case.get("warn_error")):
         observed, exc = RV.outcome(A.verify_signable, env, case["authorized"], case["threshold"], gpg=case["gpg"])
     lo, up = RV.count_bounds(env, case["authorized"], case["gpg"])
@@ -319,7 +327,19 @@ def check_config(case):
             "count": {"calls": len(want), "must_accept": want.count("accept")}}
 
 
+def _interrupted_sweep_cases():
+    from props import C12
+    return C12._sweep_cases().map(lambda c: dict(c, entry='verify_signable', kind=c["kind"] if c["kind"] in ['valid'] else 'valid'))
+
+
+def check_interrupted_sweep(case):
+    from props import C12
+    return C12.check_fault_sweep(case)
+
+
 UNITS = [
+    Unit("interrupted_sweep", check_interrupted_sweep, strategy=_interrupted_sweep_cases, quick=18, thorough=500, shards_quick=3,
+         doc="every line event and every C-level call of one verify_signable interrupted once on a fresh envelope, each followed by a normal retry of the same envelope"),
     Unit("signable", check_signable, strategy=_accepting, quick=1200, thorough=40000, stdout="own",
          essential=["must-accept", "junk", "malformed", "unauthorized", "valid_nonce", "enc=ascii", "gpg", "raw",
                     "flood>64", "warnings=error"],
